@@ -339,7 +339,10 @@ UpdateBody(cc, n, who, x, md) ==
 
       [] k = "collect" ->                                                     \* core.py:1930-1937
             LET c1 == RetainMd(c, md, 1)
-            IN [c1 EXCEPT !.nst[n] = [cache |-> Append(s.cache, x), md |-> s.md \o md]]
+            \* (nd.m > 0: the caller supplied a bounded container, collect(cache=deque(maxlen=m)): the oldest values fall out
+            \* of it; their references stay with the node until the flush)
+            IN [c1 EXCEPT !.nst[n] = [cache |-> IF nd.m > 0 /\ Len(s.cache) >= nd.m THEN Append(Tail(s.cache), x) ELSE Append(s.cache, x),
+                                      md |-> s.md \o md]]
 
       [] k = "zip" ->                                                         \* core.py:1632-1649
             \* s[i]: deque of <<x, md>> for upstream position i
@@ -573,7 +576,9 @@ CollectC(n) ==
           LET lo == IF j = 1 THEN 0 ELSE cnt(fl[j - 1][2])
               hi == cnt(fl[j][2])
               seg == SubSeq(ins, lo + 1, hi)
-          IN <<T([q \in 1 .. Len(seg) |-> X(seg[q])]), FlatSeq([q \in 1 .. Len(seg) |-> MD(seg[q])])>>]
+              m == prog[n].m
+              dseg == IF m > 0 /\ Len(seg) > m THEN SubSeq(seg, Len(seg) - m + 1, Len(seg)) ELSE seg
+          IN <<T([q \in 1 .. Len(dseg) |-> X(dseg[q])]), FlatSeq([q \in 1 .. Len(seg) |-> MD(seg[q])])>>]
 CollectHeld(n) ==
     LET fl == SelectSeq(flushes, LAMBDA f : f[1] = n)
         cnt(k) == Len(SelectSeq(SubSeq(dlog, 1, k), LAMBDA d : d[1] = n))
